@@ -117,6 +117,14 @@ def fixed_cases():
             yield {'v': [kind, 'words of the comment', ['sub', base, 'plain', inner]], 'width': 30, 'ribbon': 30, 'indent': 4}
             yield {'v': ['list', [[kind, 'words of the comment', ['sub', base, 'plain', inner]], ['int', 0]]], 'width': 30, 'ribbon': 30, 'indent': 4}
     yield {'v': ['tuple', [['cmt', 'x', ['int', 1]]]], 'width': 79, 'ribbon': 71, 'indent': 4}          # D5
+    # sort_dict_keys with comments on keys (a comment does not change where a key sorts) and on values
+    for w in (79, 12):
+        yield {'v': ['dict', [[['cmt', 'note b', ['str', 'b']], ['int', 1]], [['str', 'a'], ['int', 2]], [['cmt', 'note c', ['str', 'c']], ['cmt', 'val', ['int', 3]]], [['str', 'aa'], ['int', 0]]]],
+               'width': w, 'ribbon': w, 'indent': 4, 'sort': True}
+        yield {'v': ['list', [['dict', [[['cmt', 'three', ['int', 3]], ['int', 1]], [['int', 1], ['tcmt', 'tc', ['list', [['int', 2]]]]], [['cmt', 'two', ['int', 2]], ['int', 0]]]]]],
+               'width': w, 'ribbon': w, 'indent': 2, 'sort': True}
+        yield {'v': ['sub', 'dict', 'plain', ['dict', [[['cmt', 'k', ['tuple', [['int', 2], ['int', 1]]]], ['int', 1]], [['tuple', [['int', 1], ['int', 9]]], ['int', 2]]]]],
+               'width': w, 'ribbon': w, 'indent': 4, 'sort': True}
     # call-style printers: the hugged sole list / dict / tuple argument carries the comment itself; comments only on
     # keyword arguments of a call that would fit on one line; comments on positional and keyword arguments alike
     small = {'list': ['list', [['int', 1], ['int', 2]]], 'dict': ['dict', [[['str', 'k'], ['int', 1]]]], 'tuple': ['tuple', [['int', 1]]]}
@@ -182,7 +190,7 @@ def strategy(tier):
         'v': st.tuples(tree, decos).map(lambda p: decorate(p[0], p[1])),
         'width': st.one_of(st.integers(1, 79), st.sampled_from([1, 2, 79])),
         'ribbon': st.one_of(st.just(None), st.integers(1, 79)), 'indent': st.sampled_from([1, 2, 4, 8]),
-        'depth': st.sampled_from([None, None, 1, 2, 3]),
+        'depth': st.sampled_from([None, None, 1, 2, 3]), 'sort': st.sampled_from([False, False, True]),
     }).map(lambda c: dict(c, ribbon=c['ribbon'] or c['width']))
 
 
@@ -253,6 +261,20 @@ def canon_dump(text):
     return ast.dump(_Canon().visit(tree))
 
 
+def _keys_comparable(v):
+    from .. import eqv
+    if isinstance(v, dict):
+        ks = list(v.keys())
+        if len(ks) > 1 and not eqv.mutually_comparable(ks):
+            return False
+        return all(_keys_comparable(k) and _keys_comparable(x) for k, x in v.items())
+    if isinstance(v, (list, tuple, set, frozenset)):
+        return all(_keys_comparable(x) for x in v)
+    if isinstance(v, vtypes.Box):
+        return all(_keys_comparable(x) for x in v.args) and all(_keys_comparable(x) for x in v.kwargs.values())
+    return True
+
+
 def n_entries(v):
     from prettyprinter.prettyprinter import unwrap_comments
     v = unwrap_comments(v)[0]
@@ -287,11 +309,15 @@ def oracle(case):
     cfg = {'width': case['width'], 'ribbon_width': case['ribbon'], 'indent': case['indent']}
     if case.get('depth') is not None:
         cfg['depth'] = case['depth']      # the same limit for the commented and the stripped value
+    if case.get('sort'):
+        cfg['sort_dict_keys'] = True      # a comment on a key does not change where the key sorts
     v = values.build(r)
     plain_r = values.strip_comments(r)
     plain = values.build(plain_r)
     if n_entries(v) != n_entries(plain):
         return core.skip('key-collision')
+    if case.get('sort') and not _keys_comparable(plain):
+        return core.skip('sorted-keys-not-comparable')      # the order of keys that cannot be compared is address-based
     if case.get('depth') is not None and _commented_str_key(r):
         # a str/bytes dict key is printed in the dict's own context on purpose (it is not a nesting level);
         # a commented one goes through the generic path - whether it counts as a level is left open (C11 tolerance 1)
